@@ -10,6 +10,8 @@ def run(ctx):
     arity(ctx)
     from ..scen_misc import preset_collection
     preset_collection(ctx)
+    from ..scen_text import output_options
+    output_options(ctx)       # output options that do not belong to the chosen output style are rejected
     from ..scen_files import file_sources
     file_sources(ctx)         # opening an input consumes nothing of it (a byte consumed while opening is input read before the configuration is known to be valid)
     from ..conform import conformance
